@@ -299,7 +299,8 @@ CHECKS["C11"] = dict(
          "valuations; the first-fit loops consume exactly one pending matcher per matched element by swap-remove, "
          "permutation stops at the first unmatched element and includes does not, with no other exit; element lists "
          "are folded completely and in order; C arrays are stored as spans, containers by value. "
-         "For the listed-elements forms of range_is / range_starts_with: the verdicts of the elements are conjoined (an earlier mismatch is never overwritten) and every listed element consumes exactly one member of the range whether it matches or not.",
+         "For the listed-elements forms of range_is / range_starts_with: the verdicts of the elements are conjoined (an earlier mismatch is never overwritten) and every listed element consumes exactly one member of the range whether it matches or not. "
+         "A quantifier checker written as a search (find_if / find_if_not compared with begin or end) is decided against the quantifier for every vector of element verdicts up to length 3.",
     design_ref="DESIGN.md section 4, C11",
     note="Not decided: which of several overlapping matchers the greedy first fit assigns (the statement defers to the "
          "documented first-fit), nor anything about concrete multisets.")
